@@ -29,6 +29,9 @@ func printObs(v any) string {
 		if t == math.Floor(t) && math.Abs(t) < 1e15 {
 			return strconv.FormatInt(int64(t), 10)
 		}
+		if t == math.Floor(t) {
+			return strconv.FormatFloat(t, 'f', -1, 64)
+		}
 		return strconv.FormatFloat(t, 'g', -1, 64)
 	case bool:
 		return strconv.FormatBool(t)
